@@ -970,7 +970,7 @@ PROV_CALLS = ("deref", "deref_mut", "as_str", "as_ref", "as_mut", "borrow", "bor
               "clone", "must_use", "new_display", "new_debug", "into", "from")
 
 
-def provenance(f, local, limit=64):
+def provenance(f, local, limit=64, extra=()):
     """locals a value may derive from: follows copies, (re)borrows, field reads, casts, tuple/aggregate packing and
     pass-through calls (deref/as_str/clone/...) backwards through every definition"""
     seen = set()
@@ -986,7 +986,7 @@ def provenance(f, local, limit=64):
                 if r is None:
                     continue
             if i == "t":
-                if cn(r).split("::")[-1] in PROV_CALLS:
+                if cn(r).split("::")[-1] in PROV_CALLS or cn(r).split("::")[-1] in extra:
                     for a in r["args"][:1]:
                         if a[0] in ("c", "m"):
                             st.append(a[1][0])
